@@ -28,6 +28,9 @@ MappingStep(s, i, elapsed, T) ==
   THEN {Quiescent} \cup (IF i = OpDiscover THEN {Command} ELSE {})
   ELSE {MapNext(s, i)}
 
+(* C15: "expiry of the inactivity timeout returns every state to Nascent" - every state other than Nascent   *)
+(* itself has an inactivity timeout that can expire (0 would mean never); the value is the implementation's   *)
+SessionTimeoutsOK(T) == T[1] > 0 /\ T[3] > 0 /\ T[4] > 0      \* Temporary, Pending, Complete (Nascent is T[2])
 MappingTimeoutsOK(T) == T[1] = 0 /\ T[2] > 0 /\ T[2] <= 30 /\ T[3] > 0 /\ T[3] <= 30
 
 (* ------------------------------------------------------------ C15: session automaton *)
